@@ -17,6 +17,7 @@ if not NATIVE:
 
 from insights.core import dr  # noqa: E402
 from insights.core.exceptions import SkipComponent, ContentException  # noqa: E402
+from insights.core.spec_factory import TextFileProvider  # noqa: E402
 
 if not NATIVE:
     from symx import core, sandbox, oset
@@ -66,8 +67,25 @@ class RegistryPoint(HashedCallable):
         return object.__hash__(self) if self.h is None else self.h
 
 
+_SCRATCH = [None]
+
+
+def _scratch():
+    """a directory holding one readable file 'file' and one directory 'dir' (a path that passes a provider's validation and fails
+    when its content is first read)"""
+    if _SCRATCH[0] is None:
+        import atexit, shutil, tempfile
+        d = tempfile.mkdtemp(prefix="c04_")
+        atexit.register(shutil.rmtree, d, True)
+        os.mkdir(os.path.join(d, "dir"))
+        with open(os.path.join(d, "file"), "w") as f:
+            f.write("one\ntwo\n")
+        _SCRATCH[0] = d
+    return _SCRATCH[0]
+
+
 class World(object):
-    def __init__(self, n, edges, outcome_of, base, hashes=None, rp0=False, disabled=None):
+    def __init__(self, n, edges, outcome_of, base, hashes=None, rp0=False, disabled=None, prio=0, provider=None):
         self.n, self.edges = n, edges
         self.comps = []
         self.invocations = {}
@@ -88,8 +106,13 @@ class World(object):
                 self.invocations[_i] = self.invocations.get(_i, 0) + 1
                 oc = outcome_of(_i)
                 if oc == "value":
+                    if _i == 0 and provider:
+                        # a lazily loading content provider of the real factory: consumers read its content when they run
+                        return TextFileProvider(provider, root=_scratch())
                     v = base[_i]
                     for k_, a in enumerate(args):
+                        if isinstance(a, TextFileProvider):
+                            a = len(a.content)
                         if a is not None:
                             v = v + a * (k_ + 2)
                     return v
@@ -102,6 +125,7 @@ class World(object):
             body.__symx_order__ = i
             if i == 0 and rp0:
                 target = RegistryPoint(body, None if hashes is None else hashes[i])
+                target.prio = prio            # the collection priority real registry points carry
             else:
                 target = body if hashes is None else HashedCallable(body, hashes[i])
             self.comps.append(ctype(*deps, optional=opt)(target))
@@ -127,7 +151,7 @@ def summary(w, brokers):
             if c in b:
                 if i in inst:
                     dup.append(i)
-                inst[i] = b[c]
+                inst[i] = ("provider", b[c].relative_path) if isinstance(b[c], TextFileProvider) else b[c]
             for ex in b.exceptions.get(c, []):
                 exc.append((i, type(ex).__name__, str(ex) if isinstance(ex, ValueError) else "", bool(b.tracebacks.get(ex))))
             if c in b.missing_requirements:
@@ -195,11 +219,12 @@ def _edges(en, n):
     return edges
 
 
-def make_check(n, variants):
+def make_check(n, variants, special=False):
     def fn(en):
         with REG:
             edges = _edges(en, n)
             chosen = {}
+            prio, provider = 0, None
 
             def outcome_of(i):
                 if i not in chosen:
@@ -207,9 +232,15 @@ def make_check(n, variants):
                 return chosen[i]
             base = [en.fresh_int("b%d" % i) for i in range(n)]
             rp0 = en.flag("rp0")                       # component 0 is a registry point (failures of its consumers are recorded against it)
-            dis = en.choice("disabled", n + 1)         # one component switched off with set_enabled(False), or none
+            dis = n if special else en.choice("disabled", n + 1)         # one component switched off with set_enabled(False), or none
             disabled = dis if dis < n else None
-            if disabled is not None:
+            if special:
+                # component 0 is a registry point with a collection priority, and / or hands its consumers a lazily loading provider
+                prio = [0, 1, -1][en.choice("prio", 3)] if rp0 else 0
+                provider = [None, "dir", "file"][en.choice("provider", 3)]
+                if not prio and not provider:
+                    raise core.Abort()
+            if disabled is not None or special:
                 # with a disabled component the outcomes are kept to value / crash so that the space stays explorable
                 _lazy = outcome_of
 
@@ -217,7 +248,7 @@ def make_check(n, variants):
                     if i not in chosen:
                         chosen[i] = ["value", "crash"][en.choice("outcome2_%d" % i, 2)]
                     return chosen[i]
-            w = World(n, edges, outcome_of, base, None, rp0, disabled)
+            w = World(n, edges, outcome_of, base, None, rp0, disabled, prio, provider)
             keys = [i for i in range(n) if en.flag("key_%d" % i)]
             if not keys:
                 raise core.Abort()
@@ -226,7 +257,7 @@ def make_check(n, variants):
             info = {}
             case = lambda mv: {"n": n, "edges": [[i, j, k] for (i, j), k in sorted(edges.items())], "keys": keys,  # noqa
                                "outcomes": dict((str(i), o) for i, o in chosen.items()), "variant": variant, "broker_given": given,
-                               "info": info, "base": [mv.int(b_) for b_ in base], "rp0": rp0, "disabled": disabled}
+                               "info": info, "base": [mv.int(b_) for b_ in base], "rp0": rp0, "disabled": disabled, "prio": prio, "provider": provider}
             en.note_sample(case)
             # reference: one single pass in CPython's native order
             ref_b = dr.run(w.graph(keys), broker=dr.Broker())
@@ -337,6 +368,11 @@ def obligations(tier):
                    bounds={"components": n, "edge kinds": KINDS, "outcomes": OUTCOMES, "requested keys": "every non-empty subset (graph = requested components only)",
                            "schedules": "every linear extension; every set order; every sub-graph order; every pool task order; with and without a caller-supplied broker"},
                    stubs=stubs, outside=outside, encoded=enc, budget_s=900 if thorough else 150, replay="sched", check_sample=True),
+        Obligation("O3-priorities-and-lazy-content", make_check(3, ["extension", "hashseed", "incremental"], True), ["schedule-independent"],
+                   desc="same comparison when component 0 is a registry point with a collection priority other than 0 (what get_subgraphs sorts by), and / or returns a real lazily loading TextFileProvider whose content its consumers read when they run: a readable file, or a path that passes validation and fails on the first read (every consumer then sees the same failure, whichever ran first)",
+                   bounds={"components": 3, "edge kinds": KINDS, "outcomes": ["value", "crash"], "priority of the registry point": [0, 1, -1], "provider": ["none", "directory (fails on first read)", "readable file"],
+                           "schedules": "every linear extension; every set order; every sub-graph order"},
+                   stubs=stubs[:1], outside=outside, encoded=enc + [TextFileProvider.load], budget_s=900 if thorough else 150, replay="sched", check_sample=True),
         Obligation("O2-subgraphs", make_subgraphs(n + 1 if not thorough else n + 1), ["partition"],
                    desc="get_subgraphs: every requested component in exactly one sub-graph; sub-graphs = connected classes; nothing unrequested",
                    bounds={"components": n + 1, "edge kinds": KINDS, "requested keys": "every non-empty subset"}, stubs=stubs[:1],
@@ -357,9 +393,9 @@ def _native(case, hashes=None):
     base = case.get("base") or [100 * (i + 1) for i in range(n)]
     keys = case["keys"]
     # the reference is always the single pass over components in their creation order
-    w0 = World(n, edges, lambda i: outcomes.get(i, "value"), base, list(range(n)) if hashes is not None else None, case.get("rp0", False), case.get("disabled"))
+    w0 = World(n, edges, lambda i: outcomes.get(i, "value"), base, list(range(n)) if hashes is not None else None, case.get("rp0", False), case.get("disabled"), case.get("prio", 0), case.get("provider"))
     ref = summary(w0, [dr.run(w0.graph(keys), broker=dr.Broker())])
-    w = World(n, edges, lambda i: outcomes.get(i, "value"), base, hashes, case.get("rp0", False), case.get("disabled"))
+    w = World(n, edges, lambda i: outcomes.get(i, "value"), base, hashes, case.get("rp0", False), case.get("disabled"), case.get("prio", 0), case.get("provider"))
     v = case["variant"]
     given = case.get("broker_given")
     bad = []
